@@ -2,6 +2,11 @@
 //! input = [kind, a, b, ...]
 //!   kind 0/1/2: TwoPointXo on [Vec;2] / (Vec,Vec) / [Bitstring;2]; 3/4/5: UniformXo likewise
 //!               rest = [seed, draws, coverage flag]; observation [0, [[child, count]...]] | [1] (error)
+//!   kind 8/9: TwoPointXo / UniformXo on (Bitstring, Bitstring)   (same rest and observation as 0..5)
+//!   kind 10: TwoPointXo on LONG complementary parents (first all 0, second all 1)   [10, [], [], form, len, seed, draws]
+//!               form 0 [Vec;2], 1 (Vec,Vec), 2 [Bitstring;2], 3 (Bitstring,Bitstring); observation as above (child = mask)
+//!   kind 11: UniformXo on LONG complementary parents, seen through a few positions  [11, [], [], form, len, [positions], seed, draws]
+//!               observation [0, [[mask at the positions, count]...]]
 //!   kind 6: Bitstring::crossover_gene(a, b, i);  kind 7: crossover_segment(a, b, lo..hi)
 //!               observation [0, a', b'] | [1, a', b'] (error; genomes afterwards)
 use std::collections::BTreeMap;
@@ -46,8 +51,53 @@ fn run(input: &Tree) -> Option<Tree> {
     let kind = l.first()?.int()?;
     let (pa, pb) = (v64(l.get(1)?)?, v64(l.get(2)?)?);
     let bitlike = |v: &[i64]| v.iter().all(|x| *x == 0 || *x == 1);
+    let b2v = |b: Bitstring| b.bits.into_iter().map(i64::from).collect::<Vec<i64>>();
+    if kind == 10 || kind == 11 {
+        let form = l.get(3)?.int()?;
+        let len = l.get(4)?.usize()?;
+        if !(pa.is_empty() && pb.is_empty() && (0..4).contains(&form) && len <= 512) {
+            return None;
+        }
+        let (za, ob) = (vec![0i64; len], vec![1i64; len]);
+        if kind == 10 {
+            let (seed, n) = (l.get(5)?.u64()?, l.get(6)?.usize()?);
+            if n == 0 || n > 1000 || l.len() != 7 {
+                return None;
+            }
+            return Some(match form {
+                0 => draws(n, seed, |r| TwoPointXo.recombine([za.clone(), ob.clone()], r)),
+                1 => draws(n, seed, |r| TwoPointXo.recombine((za.clone(), ob.clone()), r)),
+                2 => draws(n, seed, |r| TwoPointXo.recombine([bits(&za), bits(&ob)], r).map(b2v)),
+                _ => draws(n, seed, |r| TwoPointXo.recombine((bits(&za), bits(&ob)), r).map(b2v)),
+            });
+        }
+        let pos: Vec<usize> = l.get(5)?.list()?.iter().map(Tree::usize).collect::<Option<_>>()?;
+        let (seed, n) = (l.get(6)?.u64()?, l.get(7)?.usize()?);
+        if n == 0 || l.len() != 8 || pos.is_empty() || pos.len() > 4 || pos.iter().any(|p| *p >= len) || pos.windows(2).any(|w| w[0] >= w[1]) {
+            return None;
+        }
+        let proj = |c: Vec<i64>| pos.iter().map(|p| c[*p]).collect::<Vec<i64>>();
+        return Some(match form {
+            0 => draws(n, seed, |r| UniformXo.recombine([za.clone(), ob.clone()], r).map(proj)),
+            1 => draws(n, seed, |r| UniformXo.recombine((za.clone(), ob.clone()), r).map(proj)),
+            2 => draws(n, seed, |r| UniformXo.recombine([bits(&za), bits(&ob)], r).map(b2v).map(proj)),
+            _ => draws(n, seed, |r| UniformXo.recombine((bits(&za), bits(&ob)), r).map(b2v).map(proj)),
+        });
+    }
     if (kind % 3 == 2 || kind >= 6) && !(bitlike(&pa) && bitlike(&pb)) {
         return None;
+    }
+    if kind == 8 || kind == 9 {
+        let seed = l.get(3)?.u64()?;
+        let n = l.get(4)?.usize()?;
+        if n == 0 || l.len() != 6 {
+            return None;
+        }
+        return Some(if kind == 8 {
+            draws(n, seed, |r| TwoPointXo.recombine((bits(&pa), bits(&pb)), r).map(b2v))
+        } else {
+            draws(n, seed, |r| UniformXo.recombine((bits(&pa), bits(&pb)), r).map(b2v))
+        });
     }
     if kind < 6 {
         let seed = l.get(3)?.u64()?;
@@ -55,7 +105,6 @@ fn run(input: &Tree) -> Option<Tree> {
         if n == 0 || l.len() != 6 {
             return None;
         }
-        let b2v = |b: Bitstring| b.bits.into_iter().map(i64::from).collect::<Vec<i64>>();
         return Some(match kind {
             0 => draws(n, seed, |r| TwoPointXo.recombine([pa.clone(), pb.clone()], r)),
             1 => draws(n, seed, |r| TwoPointXo.recombine((pa.clone(), pb.clone()), r)),
@@ -90,6 +139,12 @@ fn gen(tier: &str, rng: &mut Sm) -> Gen {
             let cover = if kind < 3 { 1 } else { i128::from(len <= 5) };
             g.inputs.push(tl![A(kind), tv(x), tv(y), a(rng.next() >> 1), au(n), A(cover)]);
         }
+        // the tuple form of the Bitstring impls
+        for kind in [8i128, 9] {
+            let cover = if kind == 8 { 1 } else { i128::from(len <= 5) };
+            g.inputs.push(tl![A(kind), tv(&za), tv(&ob), a(rng.next() >> 1), au(n), A(cover)]);
+            g.inputs.push(tl![A(kind), tv(&za), tv(&vec![1i64; len + 1]), a(rng.next() >> 1), A(20), A(0)]);
+        }
         // different lengths: an error, not a panic
         for kind in 0..6 {
             let mut longer = pb.clone();
@@ -111,6 +166,21 @@ fn gen(tier: &str, rng: &mut Sm) -> Gen {
         let pb: Vec<i64> = (0..len).map(|_| rng.range(0, hi)).collect();
         g.inputs.push(tl![au(kind), tv(&pa), tv(&pb), a(rng.next() >> 1), A(300), A(0)]);
     }
+    // long parents (a machine word and more): two-point children must still be ONE contiguous segment of the second
+    // parent; uniform children, seen through positions a word apart / neighbouring / far apart, must show every
+    // combination (each position decided on its own)
+    for (t, len) in [65usize, 70, 130, 200].iter().enumerate() {
+        for form in 0..4i128 {
+            if !thorough && (t + form as usize) % 2 == 1 {
+                continue;
+            }
+            g.inputs.push(tl![A(10), L(vec![]), L(vec![]), A(form), au(*len), a(rng.next() >> 1), au(if thorough { 600 } else { 150 })]);
+            let sets: Vec<Vec<usize>> = vec![vec![0, 64], vec![1, 33, len - 1], vec![0, 1, len - 2, len - 1], vec![31, 32, 63, 64], vec![len - 65, len - 1]];
+            for ps in sets {
+                g.inputs.push(tl![A(11), L(vec![]), L(vec![]), A(form), au(*len), L(ps.iter().map(|p| au(*p)).collect()), a(rng.next() >> 1), au(n)]);
+            }
+        }
+    }
     // exchange primitives: exhaustive over lengths <= 5 (both genomes), all indices 0..7, all ranges incl. reversed / out of range
     let maxlen = if thorough { 5 } else { 4 };
     for la in 0..=maxlen {
@@ -125,6 +195,6 @@ fn gen(tier: &str, rng: &mut Sm) -> Gen {
             }
         }
     }
-    g.meta("generator", format!("TwoPointXo/UniformXo on [Vec;2], (Vec,Vec), [Bitstring;2] with tagged / complementary parents of length 0..6, {n} draws each (support soundness on every draw, completeness of the support where demanded), different lengths both ways, random small-alphabet parents; exchange primitives exhaustive over lengths 0..{maxlen} x indices 0..7 x all ranges"));
+    g.meta("generator", format!("TwoPointXo/UniformXo on [Vec;2], (Vec,Vec), [Bitstring;2], (Bitstring,Bitstring) with tagged / complementary parents of length 0..6, {n} draws each (support soundness on every draw, completeness of the support where demanded), different lengths both ways, random small-alphabet parents; complementary parents of 65..200 genes (two-point: one contiguous segment; uniform: every combination at positions a word apart, neighbouring and far apart); exchange primitives exhaustive over lengths 0..{maxlen} x indices 0..7 x all ranges"));
     g
 }
